@@ -430,6 +430,12 @@ class Body:
         # a local that is ever borrowed mutably can change behind our back (`opt.take()`, `&mut flag` handed to a callee)
         cand -= self.mut_borrowed()
         seeds -= self.mut_borrowed()
+        # a bool computed once (`let expired = is_expired(..)`) and tested more than once: its value is learned at the first test
+        self._cv_learn = set()
+        for l, ds in defs.items():
+            if l != 0 and len(ds) == 1 and l in cand and kind(ds[0], cand) is None and self.local_tystr(l) == "bool":
+                self._cv_learn.add(l)
+        seeds |= self._cv_learn
         changed = True
         while changed:
             changed = False
@@ -443,6 +449,32 @@ class Body:
         self._cv = cand | seeds
         self._cv_kind = kind
         return self._cv
+
+    def _raw_bool_var(self, operand, cv):
+        """(var, negated?) when the switch operand is - through single-definition copies and `!` - the correlated local `var`."""
+        pl = operand.get("copy") or operand.get("move")
+        if pl is None or pl["p"]:
+            return None
+        l, parity = pl["l"], False
+        best = None
+        for _ in range(6):
+            if l in cv:
+                best = (l, parity)      # keep going: the variable the copies come from is the one to know about
+            ds = self.defs().get(l, [])
+            if len(ds) != 1 or ds[0][0] != "assign":
+                return best
+            rv = ds[0][3]
+            if "use" in rv:
+                q_ = rv["use"].get("copy") or rv["use"].get("move")
+            elif rv.get("un") == "Not":
+                q_ = rv["x"].get("copy") or rv["x"].get("move")
+                parity = not parity
+            else:
+                return best
+            if q_ is None or q_["p"]:
+                return best
+            l = q_["l"]
+        return best
 
     def _corr_tables(self):
         """(block -> [(var, ('tag', name) | ('copy', var) | None)], switch block -> (var, {edge label: set of admissible tags}))"""
@@ -477,6 +509,13 @@ class Body:
                 continue
             cond = si["cond"]
             if si["kind"] == "bool":
+                rv_ = self._raw_bool_var(self.blocks[bb]["term"]["d"], cv)
+                arms = self.blocks[bb]["term"]["arms"]
+                if rv_ is not None and len(arms) == 1 and arms[0][0] in ("0", "1"):
+                    (v, parity) = rv_
+                    lab_val = {arms[0][0]: arms[0][0] == "1", "otherwise": arms[0][0] == "0"}
+                    sw_tag[bb] = (v, {lab: {"true" if (val != parity) else "false"} for lab, val in lab_val.items()})
+                    continue
                 v = var_of(cond)
                 if v is not None:
                     sw_tag[bb] = (v, {lab: {"true" if mean else "false"} for (t, lab, mean) in si["edges"] if isinstance(mean, bool)})
@@ -589,11 +628,16 @@ class Body:
             for (t, lab) in self.succ(b):
                 if t in removed_blocks or (b, t) in removed_edges or (b, t, lab) in removed_edges:
                     continue
+                nstate = state
                 if b in sw_tag and sw_tag[b][0] in known:
                     want = sw_tag[b][1].get(lab)
                     if want is not None and known[sw_tag[b][0]] not in want:
                         continue
-                st = (t, state)
+                elif b in sw_tag and sw_tag[b][0] in self._cv_learn:
+                    want = sw_tag[b][1].get(lab)
+                    if want is not None and len(want) == 1:
+                        nstate = (state + ((sw_tag[b][0], next(iter(want))),))[-Body.MAX_CORR_VARS:]
+                st = (t, nstate)
                 if st not in seen:
                     seen.add(st)
                     dq.append(st)
@@ -602,7 +646,27 @@ class Body:
     def _reachable_corr(self, starts, removed_blocks, removed_edges):
         """Reachability over (block, known constructors / flag values of correlated locals): infeasible combinations of a
         definition (`Ok(..)`, `Err(..)`, `true`, `false`) and a later test of that local are pruned."""
-        return self._corr_walk([(s, ()) for s in starts if s not in removed_blocks], removed_blocks, removed_edges)
+        return self._corr_walk([(s, self._edge_state(s)) for s in starts if s not in removed_blocks], removed_blocks, removed_edges)
+
+    def _edge_state(self, s):
+        """What is known on entry to block s because s can only be entered over ONE edge of a switch on a correlated local
+        (rules start their walks at the target of the edge they selected: `reachable_blocks([t for (_, t, _) in true_edges])`)."""
+        if getattr(self, "_preds", None) is None:
+            preds = {}
+            for b in self.normal_blocks():
+                for (t, lab) in self.succ(b):
+                    preds.setdefault(t, []).append((b, lab))
+            self._preds = preds
+        ps = self._preds.get(s, [])
+        if len(ps) != 1 or s == 0:
+            return ()
+        (pb, lab) = ps[0]
+        sw_tag = self._corr_tables()[1]
+        if pb in sw_tag:
+            want = sw_tag[pb][1].get(lab)
+            if want is not None and len(want) == 1:
+                return ((sw_tag[pb][0], next(iter(want))),)
+        return ()
 
     def reach_after(self, bb, removed_blocks=(), removed_edges=()):
         """Blocks reachable strictly after leaving `bb` (bb itself only if on a cycle)."""
